@@ -7,30 +7,31 @@ from .common import DEFAULT_NS, restore
 from .specs import make_store
 
 P = tscen.P
+Q = "xp"  # the bystander: the interrupted pid "p" is a suffix of it
 LONGQ = "q" * 9000
 LQ = tuple("q%d" % i + "x" * 3000 for i in range(1, 6))
-PIDS = ("p", "q", "r", LONGQ) + LQ
+PIDS = ("p", Q, "r", LONGQ) + LQ
 FORMATS = (DEFAULT_NS, "f2")
 
-QMETA = ("store_meta", "q", None, "v0")
+QMETA = ("store_meta", Q, None, "v0")
 STATES = {
     "empty": (),
-    "q=A": (("store", "q", "A", None), QMETA),
-    "q=B": (("store", "q", "B", None), QMETA),
+    "q=A": (("store", Q, "A", None), QMETA),
+    "q=B": (("store", Q, "B", None), QMETA),
     "p=A": (("store", "p", "A", None),),
-    "p=A,q=A": (("store", "p", "A", None), ("store", "q", "A", None), QMETA),
+    "p=A,q=A": (("store", "p", "A", None), ("store", Q, "A", None), QMETA),
     "p=A+docs,q=B": (("store", "p", "A", None), ("store_meta", "p", None, "v0"), ("store_meta", "p", "f2", "v0"),
-                     ("store", "q", "B", None), QMETA),
-    "p=L,q=L": (("store", "p", "L", None), ("store", "q", "L", None)),
-    "A-unreferenced": (("store_nopid", "A"), ("store", "q", "B", None), QMETA),
+                     ("store", Q, "B", None), QMETA),
+    "p=L,q=L": (("store", "p", "L", None), ("store", Q, "L", None)),
+    "A-unreferenced": (("store_nopid", "A"), ("store", Q, "B", None), QMETA),
     "p=A,longq=A": (("store", "p", "A", None), ("store", LONGQ, "A", None)),
     "longq=A,p=A": (("store", LONGQ, "A", None), ("store", "p", "A", None)),
     "p=A,5 long pids=A": (("store", LQ[0], "A", None), ("store", "p", "A", None)) + tuple(("store", x, "A", None) for x in LQ[1:]),
 }
-WARM = (("store", "p", "A", None), ("store", "q", "B", None), ("store", "r", "L", None),
-        ("store_meta", "p", None, "v0"), ("store_meta", "q", None, "v0"),
-        ("delete", "p"), ("delete", "q"), ("delete", "r"),
-        ("store", "p", "B", None), ("store", "q", "A", None), ("delete", "p"), ("delete", "q"))
+WARM = (("store", "p", "A", None), ("store", Q, "B", None), ("store", "r", "L", None),
+        ("store_meta", "p", None, "v0"), ("store_meta", Q, None, "v0"),
+        ("delete", "p"), ("delete", Q), ("delete", "r"),
+        ("store", "p", "B", None), ("store", Q, "A", None), ("delete", "p"), ("delete", Q))
 
 # (call, starting state, what it exercises)
 CASES = [
